@@ -377,6 +377,14 @@ int main(int argc, char **argv)
             std::cout << "R query " << irs(th->lb(l)) << " " << irs(th->ub(l)) << " " << irs(bs.first) << " " << irs(bs.second) << " " << irs(th->value(l)) << "\n";
             std::cout << "S " << dump(*th) << "\n";
         }
+        else if (cmd == "equates")
+        { // equates <lin> | <lin> : lra_theory::equates (do the bound intervals of the two expressions intersect?)
+            const size_t b = bar(1);
+            lin l = p_lin(tk, 1, b), r = p_lin(tk, b + 1, tk.size());
+            std::cout << "E equates " << lins(l) << " | " << lins(r) << "\n";
+            std::cout << "R equates " << (th->equates(l, r) ? 1 : 0) << "\n";
+            std::cout << "S " << dump(*th) << "\n";
+        }
         else if (cmd == "assert" || cmd == "assume")
         {
             lit p = lits.at(std::stoul(tk[1]));
